@@ -6,6 +6,7 @@
 #include <algorithm>
 #include <bitset>
 #include <bit>
+#include <new>
 #include <stdexcept>
 #include <string>
 #include <utility>
@@ -51,13 +52,21 @@ std::vector<Op> parse_ops(Toks& in)
         Op o;
         o.name = in.str();
         auto const& s = o.name;
-        if (s == "s" || s == "rs" || s == "rc") { o.a = in.unum(); o.b = in.unum(); }
+        if (s == "s" || s == "rs" || s == "rc" || s == "rcs") { o.a = in.unum(); o.b = in.unum(); }
         else if (s == "r" || s == "f" || s == "rf" || s == "t" || s == "int") { o.a = in.unum(); }
         else if (s == "str") {
             auto len = in.num();
             for (i64 c = 0; c < len; ++c) { o.str.push_back(static_cast<char>(in.num())); }
             o.pos  = in.unum();
             o.n    = in.unum();
+            o.zero = static_cast<char>(in.num());
+            o.one  = static_cast<char>(in.num());
+        } else if (s == "cstr") {
+            // char const* constructor: the array is the characters + a terminating NUL; counted = 1: n = number
+            // of characters, counted = 0: n = npos (the string ends at the first NUL of the array)
+            auto len = in.num();
+            for (i64 c = 0; c < len; ++c) { o.str.push_back(static_cast<char>(in.num())); }
+            o.a    = in.unum();
             o.zero = static_cast<char>(in.num());
             o.one  = static_cast<char>(in.num());
         }
@@ -90,9 +99,11 @@ struct AsBitset {
     static constexpr std::size_t nbits = B;
     static constexpr bool is_full  = true;
     static constexpr unsigned word = 64;
-    static void set(T& x, std::size_t p, bool v) { x.set(p, v); }
-    static void reset(T& x, std::size_t p) { x.reset(p); }
-    static void flip(T& x, std::size_t p) { x.flip(p); }
+    // the positional mutators return *this (checked by the caller through the returned address)
+    static T* set(T& x, std::size_t p, bool v) { return &x.set(p, v); }
+    static T* set1(T& x, std::size_t p) { return &x.set(p); }   // defaulted value = true
+    static T* reset(T& x, std::size_t p) { return &x.reset(p); }
+    static T* flip(T& x, std::size_t p) { return &x.flip(p); }
     static bool test(T const& x, std::size_t p) { return x.test(p); }
     static T inverted(T const& x) { return ~x; }
     static std::string text(T const& x)
@@ -108,9 +119,10 @@ struct AsBasic {
     static constexpr std::size_t nbits = B;
     static constexpr bool is_full  = false;
     static constexpr unsigned word = sizeof(W) * 8;
-    static void set(T& x, std::size_t p, bool v) { x.unchecked_set(p, v); }
-    static void reset(T& x, std::size_t p) { x.unchecked_reset(p); }
-    static void flip(T& x, std::size_t p) { x.unchecked_flip(p); }
+    static T* set(T& x, std::size_t p, bool v) { return &x.unchecked_set(p, v); }
+    static T* set1(T& x, std::size_t p) { return &x.unchecked_set(p); }   // defaulted value = true
+    static T* reset(T& x, std::size_t p) { return &x.unchecked_reset(p); }
+    static T* flip(T& x, std::size_t p) { return &x.unchecked_flip(p); }
     static bool test(T const& x, std::size_t p) { return x.unchecked_test(p); }
     static T inverted(T const& x) { T c(x); c.flip(); return c; }   // no operator~ in basic_bitset
     static std::string text(T const& x)
@@ -136,7 +148,13 @@ std::string observe_etl(typename A::T const& cur, typename A::T const& oth, std:
         r += " -";
     }
     r += ' ' + bools({cur == oth});
-    if (cur.size() != oth.size()) { r += "size-differs"; }
+    if (cur.size() != A::nbits || oth.size() != A::nbits) { r += "size-differs"; }
+    // the rewritten operator!= and the symmetric call; a set equals itself and its copy
+    if ((cur != oth) == (cur == oth) || (oth == cur) != (cur == oth)) { r += "neq-inconsistent"; }
+    {
+        typename A::T const cp(cur);
+        if (!(cur == cur) || !(cp == cur) || cp != cur) { r += "copy-differs"; }
+    }
     if (!q.empty()) { r += ':' + q; }
     return r;
 }
@@ -180,19 +198,37 @@ bool etl_step(typename A::T& cur, typename A::T& oth, Op const& o, std::string& 
     using T = typename A::T;
     auto const& s = o.name;
     return step_guard([&] {
-        if (s == "sa") { cur.set(); }
-        else if (s == "ra") { cur.reset(); }
-        else if (s == "fa") { cur.flip(); }
+        // every mutator returns *this (the proxy's members: the proxy); "ret" marks a wrong returned object
+        auto same = [&](T* r) { if (r != &cur) { q = "ret-differs"; } };
+        if (s == "sa") { same(&cur.set()); }
+        else if (s == "ra") { same(&cur.reset()); }
+        else if (s == "fa") { same(&cur.flip()); }
         else if (s == "not") { cur = A::inverted(cur); }
-        else if (s == "s") { A::set(cur, o.a, o.b != 0); }
-        else if (s == "r") { A::reset(cur, o.a); }
-        else if (s == "f") { A::flip(cur, o.a); }
-        else if (s == "rs") { cur[o.a] = (o.b != 0); }
-        else if (s == "rc") { cur[o.a] = oth[o.b]; }
-        else if (s == "rf") { cur[o.a].flip(); }
-        else if (s == "and") { cur &= oth; }
-        else if (s == "or") { cur |= oth; }
-        else if (s == "xor") { cur ^= oth; }
+        else if (s == "s") { same((o.b != 0 && (o.a % 2) == 0) ? A::set1(cur, o.a) : A::set(cur, o.a, o.b != 0)); }
+        else if (s == "r") { same(A::reset(cur, o.a)); }
+        else if (s == "f") { same(A::flip(cur, o.a)); }
+        else if (s == "rs") {
+            auto ref = cur[o.a];
+            auto& back = (ref = (o.b != 0));
+            if (&back != &ref || static_cast<bool>(back) != (o.b != 0)) { q = "ret-differs"; }
+        }
+        else if (s == "rc") {
+            auto ref = cur[o.a];
+            auto& back = (ref = oth[o.b]);
+            if (&back != &ref) { q = "ret-differs"; }
+        }
+        else if (s == "rcs") { cur[o.a] = cur[o.b]; }        // both proxies into the same object
+        else if (s == "rf") {
+            auto ref = cur[o.a];
+            auto& back = ref.flip();
+            if (&back != &ref) { q = "ret-differs"; }
+        }
+        else if (s == "and") { same(&(cur &= oth)); }
+        else if (s == "or") { same(&(cur |= oth)); }
+        else if (s == "xor") { same(&(cur ^= oth)); }
+        else if (s == "ands") { same(&(cur &= cur)); }         // aliased operands
+        else if (s == "ors") { same(&(cur |= cur)); }
+        else if (s == "xors") { same(&(cur ^= cur)); }
         else if (s == "andf") { cur = cur & oth; }
         else if (s == "orf") { cur = cur | oth; }
         else if (s == "xorf") { cur = cur ^ oth; }
@@ -228,6 +264,19 @@ bool etl_step(typename A::T& cur, typename A::T& oth, Op const& o, std::string& 
             } else {
                 q = "unsupported";
             }
+        } else if (s == "cstr") {
+            if constexpr (A::is_full) {
+                // o.str.c_str() = the characters followed by a NUL
+                if (o.a != 0) {
+                    cur = T(o.str.c_str(), o.str.size(), o.zero, o.one);
+                } else if (o.zero == '0' && o.one == '1' && o.str.size() % 2 == 0) {
+                    cur = T(o.str.c_str());                    // all defaults
+                } else {
+                    cur = T(o.str.c_str(), etl::string_view::npos, o.zero, o.one);
+                }
+            } else {
+                q = "unsupported";
+            }
         } else {
             q = "unknown-op";
         }
@@ -251,6 +300,10 @@ bool std_step(std::bitset<B>& cur, std::bitset<B>& oth, Op const& o, std::string
         else if (s == "rs") { if (o.a >= B) { return false; } cur[o.a] = (o.b != 0); }
         else if (s == "rc") { if (o.a >= B || o.b >= B) { return false; } cur[o.a] = oth[o.b]; }
         else if (s == "rf") { if (o.a >= B) { return false; } cur[o.a].flip(); }
+        else if (s == "rcs") { if (o.a >= B || o.b >= B) { return false; } cur[o.a] = cur[o.b]; }
+        else if (s == "ands") { cur &= cur; }
+        else if (s == "ors") { cur |= cur; }
+        else if (s == "xors") { cur ^= cur; }
         else if (s == "and") { cur &= oth; }
         else if (s == "or") { cur |= oth; }
         else if (s == "xor") { cur ^= oth; }
@@ -277,6 +330,15 @@ bool std_step(std::bitset<B>& cur, std::bitset<B>& oth, Op const& o, std::string
                 }
             }
             cur = std::bitset<B>(o.str, static_cast<std::size_t>(o.pos), static_cast<std::size_t>(o.n), o.zero, o.one);
+        } else if (s == "cstr") {
+            // [bitset.cons]: bitset(n == npos ? basic_string(str) : basic_string(str, n), 0, n, zero, one);
+            // the same completion of libstdc++'s validation as above
+            std::string eff = o.a != 0 ? o.str : std::string(o.str.c_str());
+            for (char c : eff) {
+                if (c != o.zero && c != o.one) { return false; }
+            }
+            cur = o.a != 0 ? std::bitset<B>(o.str.c_str(), o.str.size(), o.zero, o.one)
+                           : std::bitset<B>(o.str.c_str(), std::string::npos, o.zero, o.one);
         }
     } catch (std::out_of_range const&) {
         return false;
@@ -291,8 +353,14 @@ void run_hist(std::vector<Op> const& ops, Out& impl, Out& ref, bool words)
 {
     using T = typename A::T;
     static_assert(sizeof(T) == ((B + A::word - 1) / A::word) * (A::word / 8));
-    T cur{};
-    T oth{};
+    // default-initialised (not value-initialised) objects in storage filled with 0xFF: the default constructor
+    // itself has to clear every word
+    alignas(T) unsigned char cur_buf[sizeof(T)];
+    alignas(T) unsigned char oth_buf[sizeof(T)];
+    std::memset(cur_buf, 0xFF, sizeof(T));
+    std::memset(oth_buf, 0xFF, sizeof(T));
+    T& cur = *::new (static_cast<void*>(cur_buf)) T;
+    T& oth = *::new (static_cast<void*>(oth_buf)) T;
     std::bitset<B> scur;
     std::bitset<B> soth;
     std::vector<std::string> ei;
@@ -329,7 +397,8 @@ bool dispatch_kind(std::string const& kind, unsigned w, std::vector<Op> const& o
     return false;
 }
 
-#define WIDTHS(X) X(1) X(7) X(8) X(9) X(31) X(32) X(33) X(63) X(64) X(65) X(127) X(128) X(129)
+// 257: more set bits than an 8-bit counter holds, 33 / 17 / 9 / 5 storage words
+#define WIDTHS(X) X(1) X(7) X(8) X(9) X(31) X(32) X(33) X(63) X(64) X(65) X(127) X(128) X(129) X(257)
 
 // The same classes under constant evaluation (count() then runs detail::popcount_fallback): two
 // fixed scripts (Ops.v: ct_ops / ct_str_ops), evaluated by the compiler for the etl classes and at
